@@ -8,14 +8,16 @@ git -C /repo worktree add -q $wt HEAD || exit 2
 cp /repo/Cargo.lock $wt/ 2>/dev/null
 cd $wt
 export CARGO_TARGET_DIR=$wt/target CARGO_NET_OFFLINE=true RUST_BACKTRACE=0
-run() { cargo test --offline --no-fail-fast 2>&1 | grep -E "^test result|^test .* FAILED|error(\[|:)" | tr '\n' ';'; }
+# (--test-threads=2: one test of the pinned suite, console::embedded_io::tests::read_exact, is timing-sensitive and aborts the test
+# binary when the machine is heavily loaded)
+run() { cargo test --offline --no-fail-fast -- --test-threads=2 2>&1 | grep -E "^test result|^test .* FAILED|error(\[|:)" | tr '\n' ';'; }
 # round 7: the demonstration of a change in the hypercall transport needs the hook (file `mode` = hyp), that of a change that only
 # shows without the alloc feature needs the second build configuration (`mode` = noalloc); the pinned suite is always run plainly
 mode=$(cat $d/mode 2>/dev/null)
 rund() {
   case "$mode" in
-    hyp) RUSTFLAGS="--cfg virtio_drivers_verif" cargo test --offline --no-fail-fast --lib 2>&1 | grep -E "^test result|^test .* FAILED|error(\[|:)" | tr '\n' ';' ;;
-    noalloc) cargo test --offline --no-fail-fast --no-default-features --lib 2>&1 | grep -E "^test result|^test .* FAILED|error(\[|:)" | tr '\n' ';' ;;
+    hyp) RUSTFLAGS="--cfg virtio_drivers_verif" cargo test --offline --no-fail-fast --lib -- --test-threads=2 2>&1 | grep -E "^test result|^test .* FAILED|error(\[|:)" | tr '\n' ';' ;;
+    noalloc) cargo test --offline --no-fail-fast --no-default-features --lib -- --test-threads=2 2>&1 | grep -E "^test result|^test .* FAILED|error(\[|:)" | tr '\n' ';' ;;
     *) run ;;
   esac
 }
